@@ -80,6 +80,9 @@ type xferCase struct {
 	ProducerMs    int      // library / libout sender: pause of the producer before it hands the LAST envelope to Transfer.Out's channel (real time)
 	ReadTimeoutMs int      // Transfer.ReadTimeout for paced cases (0 = the harness default of 20 s)
 	Rounds        []string // library / libout sender: requests sent over ONE connection ("xfr" | "query"); empty = one transfer
+	NoQuestion    uint32   `json:",omitempty"` // harness sender: envelope i >= 1 (the trailer included) is sent WITHOUT the question section (QDCOUNT 0) when bit (i-1)%32 is set; RFC 5936 2.2.1/2.2.2: only the first message must carry it. 0 = every envelope repeats the question
+	KeyNameSent   string   `json:",omitempty"` // harness sender: the key name as the SENDER writes it in the TSIG records of its envelopes ("" = as the receiver has it configured): the same domain name in another letter case
+	AlgSent       string   `json:",omitempty"` // harness sender: the algorithm name as the sender writes it ("" = as in the request): the same name in another letter case
 }
 
 const watchdog = 30 * time.Second
@@ -89,6 +92,10 @@ const knownWrap = "ixfr-serial-wrap"
 // known findings of round 7 (see KNOWN_FINDINGS.txt)
 const knownOtherKey = "envelope-signed-with-another-configured-key"
 const knownReuse = "reused-transfer-signs-timers-only"
+
+// known finding of round 10: an envelope whose TSIG spells the key name in another letter case than the
+// receiver's key set is refused (ErrSecret) although it is correctly keyed
+const knownKeyCase = "tsig-key-name-case-in-envelope"
 
 // known finding of round 8: an error RCODE in the second or a later envelope of an AXFR answer goes unnoticed
 const knownRcodeLater = "axfr-rcode-in-later-envelope"
@@ -336,6 +343,20 @@ func (c xferCase) valid() string {
 			return "second key: needs TSIG and another key name"
 		}
 	}
+	if c.NoQuestion != 0 && c.Sender != "harness" {
+		return "envelopes without the question section: harness sender (Transfer.Out repeats the question in every envelope)"
+	}
+	if c.KeyNameSent != "" || c.AlgSent != "" {
+		if c.Tsig == nil || c.Sender != "harness" {
+			return "the sender's spelling of key / algorithm name: needs TSIG and the harness sender"
+		}
+		if c.KeyNameSent != "" && (c.KeyNameSent == c.Tsig.KeyName || strings.ToLower(c.KeyNameSent) != c.Tsig.KeyName || strings.Contains(c.KeyNameSent, `\`)) {
+			return "the sender's spelling of the key name: the configured name in another letter case"
+		}
+		if c.AlgSent != "" && (c.AlgSent == c.Tsig.Alg || strings.ToLower(c.AlgSent) != strings.ToLower(c.Tsig.Alg)) {
+			return "the sender's spelling of the algorithm name: the request's in another letter case"
+		}
+	}
 	if len(c.RolledFrom) > 0 && (c.Tsig == nil || bytes.Equal(c.RolledFrom, c.Tsig.Secret)) {
 		return "key roll-over: needs TSIG and an earlier secret that differs from the present one"
 	}
@@ -410,7 +431,7 @@ func (c xferCase) tsigRRLen() int {
 		return 0
 	}
 	msg := make([]byte, 12)
-	out, _, _ := tsigSign(msg, c.key(), c.Tsig.KeyName, signOpts{now: 1, fudge: 300})
+	out, _, _ := tsigSign(msg, c.key(), c.keyNameSent(), signOpts{now: 1, fudge: 300})
 	return len(out) - len(msg)
 }
 
@@ -426,8 +447,8 @@ func (c xferCase) maxEnvelopeLen() int {
 		return 0 // ordinary cases stay far below 16 KiB; not worth packing twice
 	}
 	max := 0
-	for _, e := range c.envelopes() {
-		if n := len(packEnvelope(c, e)) + c.tsigRRLen(); n > max {
+	for i, e := range c.envelopes() {
+		if n := len(packEnvelope(c, i, e)) + c.tsigRRLen(); n > max {
 			max = n
 		}
 	}
@@ -452,10 +473,10 @@ func sizeFiller(c *xferCase, target int) bool {
 		}
 	}
 	set(1)
-	for _, e := range c.envelopes() {
+	for i, e := range c.envelopes() {
 		for _, r := range e {
 			if r.T == "FILL" {
-				v := 1 + target - (len(packEnvelope(*c, e)) + c.tsigRRLen())
+				v := 1 + target - (len(packEnvelope(*c, i, e)) + c.tsigRRLen())
 				if v < 1 || v > 65535 {
 					return false
 				}
@@ -610,7 +631,49 @@ func macLenName(l, full int) string {
 	return "longer"
 }
 
-func packEnvelope(c xferCase, recs []recSpec) []byte {
+// omitsQuestion: envelope i of the answer is sent with an empty question section. RFC 5936 2.2.1: QDCOUNT
+// "MUST be 1 in the first message; MUST be 0 or 1 in all following messages"; 2.2.2: "in subsequent messages
+// this section MAY be copied from the query, or it MAY be empty" (BIND, NSD and Knot leave it empty).
+func (c xferCase) omitsQuestion(i int) bool {
+	return i >= 1 && c.NoQuestion&(1<<(uint(i-1)%32)) != 0
+}
+
+// questionClass: which of the envelopes after the first carry the question (n = number of envelopes).
+func (c xferCase) questionClass(n int) string {
+	with, without := 0, 0
+	for i := 1; i < n; i++ {
+		if c.omitsQuestion(i) {
+			without++
+		} else {
+			with++
+		}
+	}
+	switch {
+	case without == 0:
+		return ""
+	case with == 0:
+		return "question-in-later-envelopes=none"
+	}
+	return "question-in-later-envelopes=some"
+}
+
+// keyNameSent / algSent: key and algorithm name as the sender writes them into its TSIG records.
+func (c xferCase) keyNameSent() string {
+	if c.KeyNameSent != "" {
+		return c.KeyNameSent
+	}
+	return c.Tsig.KeyName
+}
+
+func (c xferCase) algSent() string {
+	if c.AlgSent != "" {
+		return c.AlgSent
+	}
+	return c.Tsig.Alg
+}
+
+// packEnvelope: envelope i of the answer (i = len(Sizes) for the trailer) carrying recs.
+func packEnvelope(c xferCase, i int, recs []recSpec) []byte {
 	m := new(dns.Msg)
 	m.Id = c.QID
 	m.Response = true
@@ -619,7 +682,9 @@ func packEnvelope(c xferCase, recs []recSpec) []byte {
 	if c.Mode == "axfr" {
 		qt = dns.TypeAXFR
 	}
-	m.Question = []dns.Question{{Name: c.qname(), Qtype: qt, Qclass: dns.ClassINET}} // the question is echoed as asked; the records are the sender's
+	if !c.omitsQuestion(i) {
+		m.Question = []dns.Question{{Name: c.qname(), Qtype: qt, Qclass: dns.ClassINET}} // the question is echoed as asked; the records are the sender's
+	}
 	for _, r := range recs {
 		m.Answer = append(m.Answer, r.rr(c.Zone))
 	}
@@ -666,7 +731,7 @@ func buildPlan(c xferCase, reqMAC []byte, now uint64) plan {
 		key = c.key()
 	}
 	one := func(i int, recs []recSpec, isTrailer bool) frame {
-		mb := packEnvelope(c, recs)
+		mb := packEnvelope(c, i, recs)
 		if !isTrailer && i == j {
 			switch f.Kind {
 			case "id":
@@ -683,7 +748,7 @@ func buildPlan(c xferCase, reqMAC []byte, now uint64) plan {
 				if f.K%2 == 1 {
 					// an error answer the way servers send it: the RCODE and no records
 					recs = nil
-					mb = packEnvelope(c, nil)
+					mb = packEnvelope(c, i, nil)
 				}
 				mb[3] = mb[3]&0xf0 | byte(rc)
 				p.rcode = rc
@@ -695,7 +760,10 @@ func buildPlan(c xferCase, reqMAC []byte, now uint64) plan {
 			return fr
 		}
 		o := signOpts{prior: prev, timersOnly: i > 0, now: now, fudge: 300}
-		k, nameOnWire := key, key.Name
+		// the sender's own spelling of key and algorithm name (letter case only): the digest takes both in
+		// canonical form (RFC 8945 4.3.3), so the MAC is the same whatever the spelling on the wire
+		k, nameOnWire := key, c.keyNameSent()
+		k.Alg = c.algSent()
 		hit := !isTrailer && i == j
 		if hit && f.Kind == "chain" {
 			v := f.Val % 5
@@ -769,6 +837,9 @@ func buildPlan(c xferCase, reqMAC []byte, now uint64) plan {
 						k.Alg = algs[(a+1+f.K%(len(algs)-1))%len(algs)]
 					}
 				}
+				if c.AlgSent != "" && c.AlgSent == strings.ToUpper(c.AlgSent) {
+					k.Alg = strings.ToUpper(k.Alg)
+				}
 				p.alterAt = "same-key-other-algorithm"
 			}
 			p.prefix = true
@@ -801,7 +872,7 @@ func buildPlan(c xferCase, reqMAC []byte, now uint64) plan {
 					at = len(forged)
 				}
 				forged = append(forged[:at:at], append([]recSpec{{T: "A", Owner: "forged", V: 66}}, forged[at:]...)...)
-				body = packEnvelope(c, forged)
+				body = packEnvelope(c, i, forged)
 				fr.recs = strs(c.Zone, forged)
 				p.alterAt = "0+forged-records"
 			} else {
@@ -1612,6 +1683,20 @@ func checkXfer1(c xferCase) error {
 		}
 		classes = append(classes, fmt.Sprintf("first-envelope=lone-soa+more-follow/tsig=%v/question=%s", c.Tsig != nil, q))
 	}
+	if qc := c.questionClass(nenv); qc != "" {
+		// a sender other than this library: only the first message of the answer must carry the question
+		q := "ixfr"
+		if c.Mode == "axfr" {
+			q = "axfr"
+		}
+		classes = append(classes, qc, fmt.Sprintf("%s/question=%s/tsig=%v", qc, q, c.Tsig != nil), "question-in-later-envelopes-omitted/fault="+orNone(c.Fault.Kind))
+	}
+	if c.KeyNameSent != "" {
+		classes = append(classes, "tsig-key-name-sent-in-other-letter-case", "tsig-key-name-sent-in-other-letter-case/fault="+orNone(c.Fault.Kind))
+	}
+	if c.AlgSent != "" {
+		classes = append(classes, "tsig-algorithm-name-sent-in-other-letter-case", "tsig-algorithm-name-sent-in-other-letter-case/fault="+orNone(c.Fault.Kind))
+	}
 	if c.Reuse > 0 {
 		classes = append(classes, fmt.Sprintf("reused-transfer=%d/tsig=%v/sender=%s", c.Reuse, c.Tsig != nil, c.Sender))
 		if c.reuseTimersClass() {
@@ -1620,8 +1705,8 @@ func checkXfer1(c xferCase) error {
 	}
 	if c.Transport == "dgram" {
 		sz := 0
-		for _, e := range c.envelopes() {
-			if n := len(packEnvelope(c, e)) + c.tsigRRLen(); n > sz {
+		for i, e := range c.envelopes() {
+			if n := len(packEnvelope(c, i, e)) + c.tsigRRLen(); n > sz {
 				sz = n
 			}
 		}
@@ -2155,6 +2240,7 @@ func genCase(t *rapid.T) xferCase {
 			c.BadRequest = rapid.SampledFrom([]string{"nokey", "badalg", "longlabel"}).Draw(t, "badkind")
 		}
 	}
+	dgTarget := 0
 	dgOK := map[string]bool{"": true, "id": true, "rcode": true, "nosoa": true, "alter": true, "strip": true, "wrongkey": true, "chain": true, "stale": true, "maclen": true}
 	if c.Sender == "harness" && c.Dial == "" && c.BadRequest == "" && c.Mode != "axfr" && dgOK[c.Fault.Kind] && !big && rapid.IntRange(0, 5).Draw(t, "dgram") == 0 {
 		// IXFR over UDP: the caller hands Transfer.In a datagram conn; answers of 400..4000 octets
@@ -2178,6 +2264,7 @@ func genCase(t *rapid.T) xferCase {
 			}
 			target := rapid.SampledFrom([]int{400, 511, 512, 513, 600, 601, 1000, 1232, 1233, 2000, 4000, 4096, 4097}).Draw(t, "answer")
 			sizeFiller(&c, target)
+			dgTarget = target
 		}
 		if c.Fault.Env >= len(c.Sizes) {
 			c.Fault.Env = 0
@@ -2192,6 +2279,50 @@ func genCase(t *rapid.T) xferCase {
 		}
 		if rapid.IntRange(0, 3).Draw(t, "query-first") == 0 {
 			c.Rounds[0], c.Rounds[len(c.Rounds)-1] = c.Rounds[len(c.Rounds)-1], c.Rounds[0]
+		}
+	}
+	if c.Sender == "harness" && len(c.Sizes) >= 2 && rapid.IntRange(0, 2).Draw(t, "noq") == 0 {
+		// a sender other than this library: the question section is only required in the FIRST message of the
+		// answer (RFC 5936 2.2.1/2.2.2); BIND, NSD and Knot leave it out of every later message
+		switch rapid.IntRange(0, 3).Draw(t, "noq-kind") {
+		case 0, 1:
+			c.NoQuestion = 0xFFFFFFFF
+		case 2:
+			c.NoQuestion = 1 << uint(rapid.IntRange(0, len(c.Sizes)-2).Draw(t, "noq-one")%32)
+		default:
+			c.NoQuestion = rapid.Uint32Range(1, 0xFFFFFFFF).Draw(t, "noq-mask")
+		}
+		if c.questionClass(len(c.Sizes)) == "" {
+			c.NoQuestion = 0xFFFFFFFF
+		}
+		if dgTarget > 0 {
+			sizeFiller(&c, dgTarget) // the padded datagram keeps its size
+		}
+	}
+	if c.Sender == "harness" && c.Tsig != nil && rapid.IntRange(0, 5).Draw(t, "tsig-spelling") == 0 {
+		// the sender writes key and / or algorithm name in another letter case than the receiver's key set and
+		// request do: the same domain names (RFC 8945 4.2 "in domain name syntax", digested in canonical form)
+		respell := func(s, label string) string {
+			if rapid.Bool().Draw(t, label+"-upper") {
+				return strings.ToUpper(s)
+			}
+			out := wm.EscName(gen.FlipCase(t, wm.MustName(s)))
+			if out == s || strings.Contains(out, `\`) {
+				out = strings.ToUpper(s)
+			}
+			return out
+		}
+		which := rapid.IntRange(0, 3).Draw(t, "tsig-spelling-which")
+		if which != 0 {
+			if pbt.Known(knownKeyCase) {
+				// known finding: the secret is looked up under the key name as received, letter for letter
+				pbt.Excluded(knownKeyCase)
+			} else {
+				c.KeyNameSent = respell(c.Tsig.KeyName, "keyname")
+			}
+		}
+		if which != 1 {
+			c.AlgSent = respell(c.Tsig.Alg, "algname")
 		}
 	}
 	// one dns.Transfer value used for several transfers, a fresh connection each time
